@@ -104,6 +104,32 @@ add("C15", "exploration",
     "decisions may differ between two runs), exact methods at 1e-9",
     "DESIGN.md 3/C15")
 
+add("C04", "exploration",
+    "icontract postconditions (invariant at the API boundary) on every entry "
+    "point under a stress workload",
+    "Postconditions attached from the harness to Tempo.compute, "
+    "compute_dynamics, MeanFieldTempo.compute, compute_dynamics_with_field, "
+    "PtTebd.compute, GibbsTempo.get_state and gibbs_tempo_compute evaluate "
+    "every returned state (trace, Hermiticity, positivity with full memory, "
+    "PT-TEBD norm) while seeded stress workloads drive strong coupling, T=0 "
+    "and T>0, pure/rank-deficient states, cut-offs, unique, 1-3 mean-field "
+    "systems and 2-5 site chains; evaluation counts per entry point are "
+    "required coverage.",
+    "bound 100*epsrel (chains x number of sites, Gibbs x (n_steps/5)^2); "
+    "conditioning guard R<=8", "DESIGN.md 3/C04")
+add("C18", "exploration",
+    "runtime reference-model monitor: dense joint models with the stated "
+    "control semantics (single systems and chains)",
+    "For every (step 0..N, pre/post, int/float key, stack 1..3, kind) the "
+    "states returned by compute_dynamics (0-2 ancilla environments, "
+    "time-dependent dissipative systems) and by PtTebd+ChainControl "
+    "(uncoupled, two-site coupled and commuting chains, every site) are "
+    "compared with independent dense evolutions that apply the controls "
+    "exactly once, on the stated side, in order of addition; a violation is "
+    "classified by which alternative semantics the library followed.",
+    "mixed int/float stacks on one step are not judged (documented "
+    "interpretation)", "DESIGN.md 3/C18")
+
 NOT_APPLICABLE = []
 
 
